@@ -488,3 +488,45 @@ def run(ctx):
                         read8.add(pp['n'])
     ctx.ob('C15.8', otd, 'delta-decided-by-payload', bool(read8) and read8 <= {'data'}, 'output_text_delta reads ParsedEvent.%s' % sorted(read8) + ('' if read8 <= {'data'} else
            ': a delta sent under another SSE event name is no longer recognised, the derived text is not the concatenation of the deltas'), line=otd.line)
+
+    # ---------------------------------------------------------------- C15.12
+    ctx.rule('C15.12', 'what the pipe does depends on the events the decoder hands out, never on what is still pending inside it: in ripd::session every call of an SseDecoder method '
+             'other than push / finish / the constructors has a result that no branch reads (a diagnostic accessor may be logged, not decided on). How much of a line is pending is a '
+             'property of where the network cut the stream: a size guard evaluated on it fires for one chunking and not for another of the same bytes.')
+    n12 = 0
+    bad12 = []
+    for g in [x for x in P.fns.values() if x.crate == 'ripd' and x.path.startswith('ripd::session::')]:
+        for s_ in g.calls(r'^rip_provider_openresponses::SseDecoder::'):
+            n12 += 1
+            if re.search(r'::(push|finish|new|new_with_validation|default)$', s_.callee) or s_.dest is None:
+                continue
+            for (bi, on, ts, els) in switches(g):
+                if s_.dest['l'] in (reads_locals(g, on) | {(op_place(on) or {}).get('l')}):
+                    bad12.append((g, s_))
+                    break
+            else:
+                # the value leaves the function (returned / stored): judged where it is branched on is out of reach — treat a returned decoder-state value as a decision too
+                rets = [st for bi in g.reachable() for st in g.blocks[bi]['s'] if st.get('d', {}).get('l') == 0 and 'rv' in st]
+                if any(s_.dest['l'] in reads_locals(g, a) for st in rets for a in st['rv'].get('a', []) if op_place(a)):
+                    bad12.append((g, s_))
+    ctx.floor('C15.12', 'decoder calls in the provider pipe', n12, 3)
+    ctx.ob('C15.12', 'ripd::session', 'no-decision-on-pending-state', not bad12,
+           ('%d decoder calls in the pipe; only push / finish results are acted on' % n12) if not bad12 else
+           '%s branches on %s: the outcome depends on where the chunk boundary fell' % (bad12[0][0].path, bad12[0][1].callee), line=bad12[0][1].line if bad12 else 0)
+
+    # ---------------------------------------------------------------- C15.13
+    ctx.rule('C15.13', 'the decoder is total on arbitrary text: no byte-offset string operation that panics off a UTF-8 boundary (str range indexing, split_at, String::truncate / drain / '
+             'replace_range / insert / remove / split_off) in the SSE decoder of rip_provider_openresponses or in the provider pipe of ripd::session, unless the same function derives or tests '
+             'the offset (char_indices / find / strip_prefix results / is_char_boundary / len_utf8). Comment lines, unknown fields and the U+FFFD the pipe substitutes for invalid bytes put '
+             'multi-byte characters at the start of lines; a panic in the decoder loses every later frame of the response.')
+    from .common import char_boundary_ops
+    roots13 = [p_ for p_ in P.fns if re.match(r'^rip_provider_openresponses::SseDecoder::', p_) or p_.startswith('ripd::session::OpenResponsesSsePipe')]
+    reach13 = set(P.reach_fns(roots13)) | set(roots13)
+    scope13 = [P.fns[p_] for p_ in sorted(reach13) if p_ in P.fns and P.fns[p_].crate in ('rip_provider_openresponses', 'ripd') and
+               (P.fns[p_].crate == 'rip_provider_openresponses' or p_.startswith('ripd::session::'))]
+    ops13 = char_boundary_ops(P, scope13)
+    ctx.ob('C15.13', 'rip_provider_openresponses::SseDecoder', 'decoder-functions-scanned', True, '%d decoder / pipe functions scanned, %d byte-offset string operation(s)' % (len(scope13), len(ops13)))
+    ctx.floor('C15.13', 'decoder / pipe functions scanned for byte-offset string operations', len(scope13), 6)
+    for (g, s_, guarded) in ops13:
+        ctx.ob('C15.13', g, 'cut-on-char-boundary:' + s_.name, guarded, '%s %s' % (s_.name, 'with the offset derived / tested in the same function' if guarded else
+               'with an UNCHECKED byte offset: a line whose character straddles it panics the decoder'), line=s_.line)
